@@ -278,54 +278,7 @@ def run(p, report, tier):
     # ---------------- R10.3
     pairs = [(ci, p.find_method(ci, "query_by_utility")) for ci in bms]
     pairs += [(p.get_class(c), p.get_method(c, "query")) for c in ("StreamRandomSampling", "PeriodicSampling")]
-    for ci, q in pairs:
-        if q is None or is_abstract(q):
-            continue
-        seeds = c04.seeds_of(q.node)
-        # also copies: tmp = copy(self.x_)
-        for n in ast.walk(q.node):
-            if isinstance(n, ast.Assign) and len(n.targets) == 1 and isinstance(n.targets[0], ast.Name) \
-                    and isinstance(n.value, ast.Call) and len(n.value.args) == 1 and \
-                    isinstance(n.value.args[0], ast.Attribute) and isinstance(n.value.args[0].value, ast.Name) \
-                    and n.value.args[0].value.id == "self" and n.value.args[0].attr.endswith("_") \
-                    and c04.callname_(n.value) in ("copy", "deepcopy", "list", "deque"):
-                seeds[n.targets[0].id] = n.value.args[0].attr
-        L = c04.instance_loop(q.node)
-        if L is None or not seeds:
-            continue
-        ups = update_chain(p, ci)
-        for tmp, attr in sorted(seeds.items()):
-            sim = {(op, rhs, pol) for (_, op, rhs, pol) in update_ops(q.node, {tmp}, within=L)}
-            if not sim:
-                continue  # read-only seed
-            com = set()
-            for u in ups:
-                com |= {(op, rhs, pol) for (_, op, rhs, pol) in update_ops(u.node, {"self." + attr})}
-            ent = f"{ci.name}.{q.name}/update"
-            # bulk-equivalent forms
-            def covered(a, other):
-                op, rhs, pol = a
-                if a in other:
-                    return True
-                eq = BULK.get((op, rhs))
-                if eq and any((o, r) in eq for (o, r, _) in other):
-                    return True
-                return False
-            def covered_rev(b, other):
-                op, rhs, pol = b
-                if b in other:
-                    return True
-                for (k, vs) in BULK.items():
-                    if (op, rhs) in vs and any((o, r) == k for (o, r, _) in other):
-                        return True
-                return False
-            miss = [a for a in sim if not covered(a, com)]
-            extra = [b for b in com if not covered_rev(b, sim)]
-            ok = not miss and not extra
-            report.add("R10.3", ent, f"transition of `{tmp}` (simulation) vs self.{attr} (commit)",
-                       f"{q.file}:{L.lineno}", ok,
-                       detail=("operators agree: " + "; ".join(f"{o} {r} [{pl}]" for o, r, pl in sorted(sim))) if ok else
-                       ("simulated only: " + str(sorted(miss)) + " committed only: " + str(sorted(extra))))
+    check_transitions(p, report, pairs, "R10.3")
     # ---------------- R10.6 simulation works on its running copies
     from .c03 import creation_kinds, CONV_FUNCS
     for ci, q in pairs:
@@ -407,6 +360,58 @@ def run(p, report, tier):
         "chunking invariance as an equality of whole runs is not decided; R10.1-R10.5 are necessary structural conditions",
         "RandomVariableUncertaintyBudgetManager is outside the chunking-invariance claim (normally distributed draws) and is not judged by R10.2",
     ]
+
+
+def check_transitions(p, report, pairs, rule):
+    for ci, q in pairs:
+        if q is None or is_abstract(q):
+            continue
+        seeds = c04.seeds_of(q.node)
+        # also copies: tmp = copy(self.x_)
+        for n in ast.walk(q.node):
+            if isinstance(n, ast.Assign) and len(n.targets) == 1 and isinstance(n.targets[0], ast.Name) \
+                    and isinstance(n.value, ast.Call) and len(n.value.args) == 1 and \
+                    isinstance(n.value.args[0], ast.Attribute) and isinstance(n.value.args[0].value, ast.Name) \
+                    and n.value.args[0].value.id == "self" and n.value.args[0].attr.endswith("_") \
+                    and c04.callname_(n.value) in ("copy", "deepcopy", "list", "deque"):
+                seeds[n.targets[0].id] = n.value.args[0].attr
+        L = c04.instance_loop(q.node)
+        if L is None or not seeds:
+            continue
+        ups = update_chain(p, ci)
+        for tmp, attr in sorted(seeds.items()):
+            sim = {(op, rhs, pol) for (_, op, rhs, pol) in update_ops(q.node, {tmp}, within=L)}
+            if not sim:
+                continue  # read-only seed
+            com = set()
+            for u in ups:
+                com |= {(op, rhs, pol) for (_, op, rhs, pol) in update_ops(u.node, {"self." + attr})}
+            ent = f"{ci.name}.{q.name}/update"
+            # bulk-equivalent forms
+            def covered(a, other):
+                op, rhs, pol = a
+                if a in other:
+                    return True
+                eq = BULK.get((op, rhs))
+                if eq and any((o, r) in eq for (o, r, _) in other):
+                    return True
+                return False
+            def covered_rev(b, other):
+                op, rhs, pol = b
+                if b in other:
+                    return True
+                for (k, vs) in BULK.items():
+                    if (op, rhs) in vs and any((o, r) == k for (o, r, _) in other):
+                        return True
+                return False
+            miss = [a for a in sim if not covered(a, com)]
+            extra = [b for b in com if not covered_rev(b, sim)]
+            ok = not miss and not extra
+            report.add(rule, ent, f"transition of `{tmp}` (simulation) vs self.{attr} (commit)",
+                       f"{q.file}:{L.lineno}", ok,
+                       detail=("operators agree: " + "; ".join(f"{o} {r} [{pl}]" for o, r, pl in sorted(sim))) if ok else
+                       ("simulated only: " + str(sorted(miss)) + " committed only: " + str(sorted(extra))))
+
 
 
 def wellformed_indices(fnode, name):
